@@ -45,21 +45,29 @@ func isLenOfHashes(v ssa.Value) bool {
 	return ok && bi.Name() == "len" && isFieldLoad(call.Call.Args[0], "Board.hashes")
 }
 
-// lenMinus: v == len(hashes) - k
+// lenMinus: v == len(hashes) - k, through any chain of +/- constants (last := len-1; ix := last-4)
 func lenMinus(v ssa.Value) (int64, bool) {
-	bo, ok := stripConv(v).(*ssa.BinOp)
+	v = stripConv(v)
+	if isLenOfHashes(v) {
+		return 0, true
+	}
+	bo, ok := v.(*ssa.BinOp)
 	if !ok {
 		return 0, false
 	}
 	k, isc := constOf(bo.Y)
-	if !isc || !isLenOfHashes(bo.X) {
+	if !isc {
+		return 0, false
+	}
+	base, ok := lenMinus(bo.X)
+	if !ok {
 		return 0, false
 	}
 	switch bo.Op {
 	case token.SUB:
-		return k, true
+		return base + k, true
 	case token.ADD:
-		return -k, true
+		return base - k, true
 	}
 	return 0, false
 }
@@ -134,17 +142,37 @@ func c10R1R2(c *Ctx, p *Prog) {
 		return
 	}
 	// lower bound: loop continues while ix >= 0 (or ix > -1)
-	okLow := false
+	lowest, lowKnown := int64(0), false
 	if iff, ok := ixPhi.Block().Instrs[len(ixPhi.Block().Instrs)-1].(*ssa.If); ok {
-		if bo, ok := iff.Cond.(*ssa.BinOp); ok && stripConv(bo.X) == ssa.Value(ixPhi) {
-			k, isc := constOf(bo.Y)
+		if bo, ok := iff.Cond.(*ssa.BinOp); ok {
+			x, y, op := stripConv(bo.X), stripConv(bo.Y), bo.Op
+			if y == ssa.Value(ixPhi) {
+				x, y, op = y, x, swapCmp(op)
+			}
 			bodyTrue := ixPhi.Block().Succs[0].Dominates(cmp.Block()) || ixPhi.Block().Succs[0] == cmp.Block()
-			if isc && bodyTrue && ((bo.Op == token.GEQ && k == 0) || (bo.Op == token.GTR && k == -1)) {
-				okLow = true
+			if !bodyTrue {
+				op = negCmp(op)
+			}
+			if k, isc := constOf(y); isc && x == ssa.Value(ixPhi) {
+				switch op {
+				case token.GEQ:
+					lowest, lowKnown = k, true
+				case token.GTR:
+					lowest, lowKnown = k+1, true
+				}
 			}
 		}
 	}
-	c.Check(okLow, r1, "Threefold#lower-bound", cmp.Pos(), "the scan runs down to index 0: the whole history since the last reset is visited")
+	switch {
+	case !lowKnown:
+		c.Undec(r1, "Threefold#lower-bound", cmp.Pos(), "the loop test is not a comparison of the scan index with a constant lower bound")
+	case lowest == 0:
+		c.Ok(r1, "Threefold#lower-bound", cmp.Pos(), "the scan runs down to index 0: the whole history since the last reset is visited")
+	case lowest > 0:
+		c.Fail(r1, "Threefold#lower-bound", cmp.Pos(), "the scan stops at index %d: the oldest %d entries of the history are never compared (an occurrence there is missed)", lowest, lowest)
+	default:
+		c.Undec(r1, "Threefold#lower-bound", cmp.Pos(), "the loop admits a negative index (%d)", lowest)
+	}
 	okCover := (d == 2 && (s == 3 || s == 5)) || (d == 1 && s >= 2 && s <= 5)
 	why := fmt.Sprintf("start offset %d from the end, stride %d", s, d)
 	switch {
@@ -182,11 +210,15 @@ func c10R1R2(c *Ctx, p *Prog) {
 		return
 	}
 	cnt := stripConv(inc.X).(*ssa.Phi)
-	// init 1
-	init1 := false
+	hdr := ixPhi.Block()
+	if cnt.Block() != hdr {
+		c.Undec(r2, "Threefold#counter", cnt.Pos(), "the counter is not carried by the scan loop")
+		return
+	}
+	// init 1: every constant flowing into the counter, and every return that the loop cannot reach
+	var inits []int64
 	seen := map[ssa.Value]bool{}
 	var walk func(v ssa.Value)
-	var inits []int64
 	walk = func(v ssa.Value) {
 		if seen[v] {
 			return
@@ -203,56 +235,142 @@ func c10R1R2(c *Ctx, p *Prog) {
 		}
 	}
 	walk(cnt)
-	init1 = len(inits) >= 1
+	init1 := len(inits) >= 1
 	for _, k := range inits {
 		if k != 1 {
 			init1 = false
 		}
 	}
 	c.Check(init1, r2, "Threefold#counter-starts-at-1", cnt.Pos(), "the count starts at 1 (the current occurrence) %v", inits)
-	// increment guarded by equality
-	guarded := false
-	for _, ce := range controllingConds(inc.Block()) {
-		if ce.Cond == ssa.Value(cmp) && ce.True == (cmp.Op == token.EQL) {
-			guarded = true
+
+	// one iteration of the loop, path by path
+	type verdict struct {
+		bad string
+		n   int
+	}
+	vs := map[string]*verdict{"Threefold#increment-per-match": {}, "Threefold#returns-at-three": {}, "Threefold#returns-count": {}}
+	fail := func(k, why string) {
+		if vs[k].bad == "" {
+			vs[k].bad = why
 		}
 	}
-	if !guarded {
-		for _, e := range entryEdges(inc.Block()) {
-			if e.Cond == ssa.Value(cmp) && e.True == (cmp.Op == token.EQL) && len(inc.Block().Preds) == 1 {
-				guarded = true
-			}
-		}
-	}
-	c.Check(guarded, r2, "Threefold#increment-per-match", inc.Pos(), "the count is incremented exactly in the block entered when the visited hash equals the current one")
-	// early return at 3, final return of the running count
-	early, final := false, false
-	allInstrs(fn, func(in ssa.Instruction) {
-		ret, ok := in.(*ssa.Return)
-		if !ok || len(ret.Results) != 1 {
+	und := ""
+	complete := enumBlockPaths(hdr, func(from, to *ssa.BasicBlock) bool { return to == hdr }, 20000, func(bp *bpath) {
+		if bp.End == "panic" {
 			return
 		}
-		r := stripConv(ret.Results[0])
-		if r == ssa.Value(inc) {
-			for _, ce := range controllingConds(ret.Block()) {
-				if bo, ok := ce.Cond.(*ssa.BinOp); ok && stripConv(bo.X) == ssa.Value(inc) {
-					if k, isc := constOf(bo.Y); isc && ce.True && ((bo.Op == token.GEQ && k == 3) || (bo.Op == token.GTR && k == 2) || (bo.Op == token.EQL && k == 3)) {
-						early = true
-					}
+		incOn, cmpTruth, cmpOn := false, false, false
+		for _, b := range bp.Blocks {
+			if b == inc.Block() {
+				incOn = true
+			}
+		}
+		lb, ub := int64(-1<<30), int64(1<<30)
+		exitPath := false
+		for i, pc := range bp.Conds {
+			if pc.V == ssa.Value(cmp) {
+				cmpOn, cmpTruth = true, pc.True == (cmp.Op == token.EQL)
+			}
+			if i == 0 && pc.At == 0 {
+				// the loop test: body on the edge towards the comparison
+				bodyTrue := hdr.Succs[0].Dominates(cmp.Block()) || hdr.Succs[0] == cmp.Block()
+				exitPath = pc.True != bodyTrue
+			}
+			bo, ok := pc.V.(*ssa.BinOp)
+			if !ok {
+				continue
+			}
+			x, y, op := stripConv(bo.X), stripConv(bo.Y), bo.Op
+			if y == ssa.Value(inc) {
+				x, y, op = y, x, swapCmp(op)
+			}
+			if x != ssa.Value(inc) {
+				continue
+			}
+			k, isc := constOf(y)
+			if !isc {
+				continue
+			}
+			if !pc.True {
+				op = negCmp(op)
+			}
+			switch op {
+			case token.GEQ:
+				lb = max(lb, k)
+			case token.GTR:
+				lb = max(lb, k+1)
+			case token.EQL:
+				lb, ub = max(lb, k), min(ub, k)
+			case token.LSS:
+				ub = min(ub, k-1)
+			case token.LEQ:
+				ub = min(ub, k)
+			case token.NEQ:
+				if k == 3 {
+					ub = min(ub, 2) // counts by one from below
 				}
 			}
+		}
+		vs["Threefold#increment-per-match"].n++
+		if incOn != (cmpOn && cmpTruth) {
+			if incOn {
+				fail("Threefold#increment-per-match", "the count is incremented on a path where the visited hash was not found equal to the current one")
+			} else {
+				fail("Threefold#increment-per-match", "a visited hash equal to the current one is not counted on some path")
+			}
+		}
+		var out ssa.Value
+		if bp.End == "return" {
+			last := bp.Blocks[len(bp.Blocks)-1]
+			ret := last.Instrs[len(last.Instrs)-1].(*ssa.Return)
+			if len(ret.Results) != 1 {
+				return
+			}
+			out = stripConv(bp.resolve(returnedValue(ret, 0)))
+		} else if bp.Arrive == hdr {
+			out = stripConv(bp.edgeValue(cnt))
+		} else {
 			return
 		}
-		// final: a phi over the counter values (or the counter phi itself)
-		if ph, ok := r.(*ssa.Phi); ok {
-			sl := backSlice(ph, sliceOpts{})
-			if sl[cnt] || ph == cnt {
-				final = true
+		switch {
+		case incOn && out != ssa.Value(inc):
+			fail("Threefold#returns-count", "after counting a match the incremented count is not what is carried on/returned")
+		case !incOn && out != ssa.Value(cnt):
+			fail("Threefold#returns-count", "without a match the running count is not what is carried on/returned")
+		}
+		vs["Threefold#returns-count"].n++
+		if bp.End == "return" {
+			if incOn {
+				vs["Threefold#returns-at-three"].n++
+				if lb < 3 {
+					fail("Threefold#returns-at-three", fmt.Sprintf("the scan stops after a match although the count is only known to be >= %d: a third occurrence further back is never counted", max(lb, 2)))
+				}
+			} else if !exitPath {
+				fail("Threefold#returns-count", "the scan is abandoned before index 0 on a path without a match")
+			}
+		} else if incOn {
+			vs["Threefold#returns-at-three"].n++
+			if ub > 2 {
+				fail("Threefold#returns-at-three", "the scan continues after a match without knowing the count is below 3: the result is not capped at three")
 			}
 		}
 	})
-	c.Check(early, r2, "Threefold#returns-at-three", inc.Pos(), "the function returns the count as soon as it reaches 3")
-	c.Check(final, r2, "Threefold#returns-count", fn.Pos(), "otherwise it returns the accumulated count")
+	if !complete {
+		und = "path enumeration exceeded its budget"
+	}
+	for _, k := range []string{"Threefold#increment-per-match", "Threefold#returns-at-three", "Threefold#returns-count"} {
+		v := vs[k]
+		switch {
+		case und != "":
+			c.Undec(r2, k, inc.Pos(), "%s", und)
+		case v.bad != "":
+			c.Fail(r2, k, inc.Pos(), "%s", v.bad)
+		case v.n == 0:
+			c.Undec(r2, k, inc.Pos(), "no path through the scan loop exercises this obligation")
+		default:
+			c.Ok(r2, k, inc.Pos(), "holds on all %d paths through one iteration of the scan", v.n)
+		}
+	}
 }
 
 func init() {
